@@ -489,6 +489,11 @@ preserving('BT1-ok-two-dimensional-guard', ['C16'], edit=[('python/numqi/gellman
            "    if dm.ndim==2:\n        dm = (dm + dm.T.conj())/2\n    ret = matrix_to_gellmann_basis(dm).real\n    if not with_rho0:")])
 preserving('OUT2-ok-conjugated-outer', ['C10'], edit=[('python/numqi/random/_internal.py',
            "def rand_density_matrix(", "def _rank_one_projector(dim, seed=None):\n    tmp0 = rand_haar_state(dim, seed=seed)\n    return np.outer(tmp0, tmp0.conj())\n\n\ndef rand_density_matrix(")])
+preserving('A13-ok-inplace-on-fresh-copy', ['C04'], edit=[('python/numqi/sim/_torch_utils.py',
+           "        q0_conj = ctx.saved_tensors[0].detach().numpy().conj()",
+           "        q0_conj = np.conjugate(ctx.saved_tensors[0].detach().numpy())\n        q0_conj *= 1")])
+preserving('M4-ok-reciprocal-norm', ['C11'], edit=[('python/numqi/sim/state.py',
+           "    q2[ind2] = q1[ind2] / np.sqrt(prob[ind1])", "    q2[ind2] = q1[ind2] * (1/np.sqrt(prob[ind1]))")])
 breaking('refix-get_gme_2qubit', {'C13': 'F2', 'C05': 'F2'}, patch_reverse='fix_78cd862.diff')
 
 # ---- behaviour-preserving edits for the second half of the round-3 rules
